@@ -32,12 +32,18 @@ LANES = [
 
 
 def run(index, rep):
+    rep.guard(state5, index, rep)
     rep.guard(meat, index, rep)
     rep.guard(klass, index, rep)
     rep.guard(milk, index, rep)
     flow = Flow(index, [PARAMS, "src/food_system/feed_and_biofuels.py"], sources=("create_feed_food_from_kcals", "increase_biofuels_then_feed"))
     rep.guard(feedge, index, rep, flow)
     rep.guard(zero, index, rep, flow)
+
+
+def state5(index, rep):
+    from .memo import hidden_state_rules
+    hidden_state_rules(index, rep, "C05.STATE", [MD, PARAMS], "the meat and milk offered to the optimiser")
 
 
 def meat(index, rep):
